@@ -27,10 +27,14 @@ Definition wrap_int (z : Z) : Z := (z + two31) mod two32 - two31.
 (* conversion int -> unsigned int *)
 Definition to_unsigned (z : Z) : Z := z mod two32.
 
-(* One old-style step of law_uniform, Law.cpp:90-92:
+(* One old-style step of law_uniform, Law.cpp:
      unsigned int random_product = Random_factor * Random_value;
-     Random_value = random_product % Random_congruent;                                        *)
-Definition lcg_next (v : Z) : Z := to_unsigned (wrap_int (rnd_factor * v)) mod rnd_p.
+     Random_value = random_product % Random_congruent;
+     if (Random_value == 0) Random_value = 1;     (a state 0 would freeze the generator)      *)
+Definition lcg_raw (v : Z) : Z := to_unsigned (wrap_int (rnd_factor * v)) mod rnd_p.
+Definition lcg_next (v : Z) : Z := let r := lcg_raw v in if r =? 0 then 1 else r.
+(* the step as it was before the repair (kept for the regression examples only) *)
+Definition lcg_next_prefix (v : Z) : Z := lcg_raw v.
 
 (* A client of the generator: a deterministic program whose only inputs are the values it reads
    from the generator (draws, law_get_random_seed) - the interaction of a simulator with Law.cpp *)
@@ -250,15 +254,31 @@ Fixpoint gbb_loop (tab : list tab_entry) (ptab : list T) (us : list T) (nd : nat
   | _ => GExhausted
   end.
 
-(* law_gaussian_between_bounds(binf, bsup), None = TEST (undefined bound) *)
-Definition gbb (binf bsup : option T) (us : list T) : gbb_result :=
-  let a := match binf with None => topp g_large | Some v => v end in
-  let b := match bsup with None => g_large | Some v => v end in
+(* Law.cpp: effective bounds. An undefined bound (None = TEST) is replaced by -large / +large, kept at
+   least [large] beyond the defined one:
+     a = FFFF(binf) ? -large : binf;  b = FFFF(bsup) ? large : bsup;
+     if (FFFF(binf) && !FFFF(bsup) && a > b - large) a = b - large;
+     if (FFFF(bsup) && !FFFF(binf) && b < a + large) b = a + large;                          *)
+Definition gbb_bounds (binf bsup : option T) : T * T :=
+  let a0 := match binf with None => topp g_large | Some v => v end in
+  let b0 := match bsup with None => g_large | Some v => v end in
+  let a := match binf, bsup with
+           | None, Some _ => if tltb (b0 -! g_large) a0 then b0 -! g_large else a0
+           | _, _ => a0
+           end in
+  let b := match bsup, binf with
+           | None, Some _ => if tltb b0 (a +! g_large) then a +! g_large else b0
+           | _, _ => b0
+           end in
+  (a, b).
+
+(* law_gaussian_between_bounds once the effective bounds a, b are known *)
+Definition gbb_core (a b : T) (us : list T) : gbb_result :=
   let tab := gbb_split a b in
   let cum := cumul t0 tab in
   let total := last cum t0 in
   if tleb total t0 then
-    (* Law.cpp:645-650 : rank = (int) (n * law_uniform(0,1)); x = atab[rank] *)
+    (* rank = (int) (n * law_uniform(0,1)); x = atab[rank] *)
     match us with
     | [] => GExhausted
     | u :: _ =>
@@ -272,6 +292,10 @@ Definition gbb (binf bsup : option T) (us : list T) : gbb_result :=
   else
     let ptab := map (fun c => c /! total) cum in
     gbb_loop tab ptab us 0 [].
+
+(* law_gaussian_between_bounds(binf, bsup) *)
+Definition gbb (binf bsup : option T) (us : list T) : gbb_result :=
+  let (a, b) := gbb_bounds binf bsup in gbb_core a b us.
 
 (* Final step of GibbsMulti::getSimulate (GibbsMulti.cpp:147-155): the bounds are standardised,
    the bounded draw is scaled back.  (The case "both bounds undefined" draws law_gaussian and is
